@@ -8,8 +8,10 @@ import (
 	"fmt"
 	"go/token"
 	"go/types"
+	"os"
 	"sort"
 	"strings"
+	"time"
 
 	"golang.org/x/tools/go/ssa"
 )
@@ -79,6 +81,14 @@ type Exec struct {
 	maxUnwind  int
 	feasCache  map[int]string
 
+	primaryMs       int
+	vcTimeout       time.Duration
+	noPortfolio     bool
+	pstats          PortfolioStats
+	restrictions    int
+	feasBranches    bool
+	feasMs          int
+	nPruned         int
 	fmtCallsMethods bool
 	inFmt           int
 	fmtRecovered    int
@@ -98,6 +108,8 @@ type FnInfo struct {
 }
 
 const exitOrder = 1 << 30
+
+var debugVC = os.Getenv("VP_DEBUGVC") != ""
 
 func (ex *Exec) info(fn *ssa.Function) *FnInfo {
 	if fi, ok := ex.fninfo[fn]; ok {
@@ -202,11 +214,15 @@ func (ex *Exec) vc(st *State, kind, site string, bad *Term) {
 	if ex.inFmt > 0 && kind == "panic" {
 		// panics inside String/Error methods called by fmt are recovered by fmt
 		ex.fmtRecovered++
+		ex.restrictions++
 		ex.assume(st, ex.tb.Not(bad))
 		return
 	}
 	v := &VC{Kind: kind, Site: site, Harness: ex.harness}
 	ex.vcs = append(ex.vcs, v)
+	if debugVC {
+		fmt.Printf("VC %s %s\n", kind, site)
+	}
 	pc := ex.pcTerm(st)
 	var kn []knownPred
 	for _, k := range ex.known {
@@ -219,27 +235,51 @@ func (ex *Exec) vc(st *State, kind, site string, bad *Term) {
 	for _, k := range kn {
 		conj = append(conj, ex.tb.Not(k.pred))
 	}
-	r := ex.solver.Check(conj...)
+	r, mdl := ex.decide(conj...)
 	v.Result = r
 	switch r {
 	case "unsat":
 		ex.nVCunsat++
 	case "sat":
-		v.Model = ex.model()
+		v.Model = mdl
 		ex.violations = append(ex.violations, v)
 	default:
 		ex.undecided = append(ex.undecided, v)
 	}
 	for _, k := range kn {
-		r2 := ex.solver.Check(pc, bad, k.pred)
+		r2, mdl2 := ex.decide(pc, bad, k.pred)
 		if r2 == "sat" {
-			kv := &VC{Kind: kind, Site: site, Result: "sat", Known: k.id, Harness: ex.harness, Model: ex.model()}
+			kv := &VC{Kind: kind, Site: site, Result: "sat", Known: k.id, Harness: ex.harness, Model: mdl2}
 			ex.knownSeen = append(ex.knownSeen, kv)
 		} else if r2 != "unsat" {
 			ex.undecided = append(ex.undecided, &VC{Kind: kind, Site: site + " [known " + k.id + "]", Result: r2, Harness: ex.harness})
 		}
 	}
-	ex.assume(st, ex.tb.Not(bad))
+	if r != "unsat" || len(kn) > 0 {
+		ex.restrictions++
+		ex.assume(st, ex.tb.Not(bad))
+	}
+}
+
+// decide answers a verification query: the incremental primary solver gets a
+// short budget, then a portfolio of one-shot solvers gets the full budget.
+func (ex *Exec) decide(conj ...*Term) (string, []uint64) {
+	r := ex.solver.CheckQuick(ex.primaryMs, conj...)
+	if r == "sat" {
+		return r, ex.model()
+	}
+	if r == "unsat" {
+		return r, nil
+	}
+	if ex.noPortfolio {
+		return r, nil
+	}
+	vars := make([]*Term, len(ex.nondets))
+	for i, n := range ex.nondets {
+		vars[i] = n.t
+	}
+	res, vals, _ := Portfolio(conj, vars, ex.vcTimeout, &ex.pstats)
+	return res, vals
 }
 
 func (ex *Exec) model() []uint64 {
@@ -259,10 +299,16 @@ func (ex *Exec) reach(st *State, name string) {
 	if ex.reached[name] {
 		return
 	}
-	r := ex.solver.Check(ex.pcTerm(st))
+	if debugVC {
+		fmt.Printf("REACH %s pc=%d conj restrictions=%d\n", name, len(st.pc), ex.restrictions)
+		for _, c := range st.pc {
+			fmt.Printf("    conj t%d op=%d nargs=%d\n", c.id, c.op, len(c.args))
+		}
+	}
+	r, m := ex.decide(ex.pcTerm(st))
 	if r == "sat" {
 		ex.reached[name] = true
-		if m := ex.model(); m != nil {
+		if m != nil {
 			ex.reachModel[name] = m
 		}
 	}
@@ -346,6 +392,7 @@ type frame struct {
 	deferred map[*ssa.BasicBlock]*State
 	exit     *State
 	iters    map[*ssa.BasicBlock]int
+	constHdr map[*ssa.BasicBlock]bool
 }
 
 func (fr *frame) addPending(ex *Exec, m map[*ssa.BasicBlock]*State, b *ssa.BasicBlock, s *State) {
@@ -381,13 +428,30 @@ func (ex *Exec) flow(fr *frame, s *State, from, to *ssa.BasicBlock) {
 	}
 	if to.Dominates(from) {
 		// back edge: prune infeasible paths, count iterations
-		if ex.feasible(s) != "sat" {
+		if debugVC {
+			fmt.Printf("BACKEDGE %s b%d pc=%d conj\n", fr.fn.Name(), to.Index, len(s.pc))
+			for _, c := range s.pc {
+				fmt.Printf("    conj t%d op=%d nargs=%d\n", c.id, c.op, len(c.args))
+			}
+		}
+		if !fr.constHdr[to] && ex.feasible(s) != "sat" {
 			return
 		}
 		fr.addPending(ex, fr.deferred, to, s)
 		return
 	}
 	fr.addPending(ex, fr.pending, to, s)
+}
+
+// inHarnessCode reports whether fn is part of the harness (Vp*/vp* functions
+// and their closures): branches there encode the property itself, so pruning
+// them eagerly would turn every branch into a proof obligation.
+func (ex *Exec) inHarnessCode(fn *ssa.Function) bool {
+	for fn.Parent() != nil {
+		fn = fn.Parent()
+	}
+	n := fn.Name()
+	return fn.Pkg == ex.pkg && (strings.HasPrefix(n, "Vp") || strings.HasPrefix(n, "vp"))
 }
 
 func (ex *Exec) feasible(s *State) string {
@@ -401,7 +465,7 @@ func (ex *Exec) feasible(s *State) string {
 	if r, ok := ex.feasCache[pc.id]; ok {
 		return r
 	}
-	r := ex.solver.Check(pc)
+	r := ex.solver.CheckQuick(ex.feasMs, pc)
 	if r == "unknown" {
 		r = "sat" // keep exploring; unwinding limit still applies
 	}
@@ -423,7 +487,7 @@ func (ex *Exec) callFunction(st *State, fn *ssa.Function, args []Value, bind []V
 	defer func() { ex.depth--; ex.curFn = ex.curFn[:len(ex.curFn)-1] }()
 	ex.funcsSeen[fn.String()] = true
 	fi := ex.info(fn)
-	fr := &frame{fn: fn, fi: fi, pending: map[*ssa.BasicBlock]*State{}, deferred: map[*ssa.BasicBlock]*State{}, iters: map[*ssa.BasicBlock]int{}}
+	fr := &frame{fn: fn, fi: fi, pending: map[*ssa.BasicBlock]*State{}, deferred: map[*ssa.BasicBlock]*State{}, iters: map[*ssa.BasicBlock]int{}, constHdr: map[*ssa.BasicBlock]bool{}}
 	entry := &State{pc: st.pc[:len(st.pc):len(st.pc)], facts: st.facts, eqc: st.eqc, factsShare: true, heap: st.heap, heapShare: true, regs: map[interface{}]Value{}, alloc: st.alloc}
 	st.factsShare, st.heapShare = true, true
 	for i, p := range fn.Params {
@@ -433,6 +497,8 @@ func (ex *Exec) callFunction(st *State, fn *ssa.Function, args []Value, bind []V
 		entry.regs[fv] = bind[i]
 	}
 	ex.nStates++
+	r0 := ex.restrictions
+	entryPC := st.pc
 	fr.pending[fn.Blocks[0]] = entry
 	for {
 		// pick the minimum-order pending block
@@ -462,6 +528,7 @@ func (ex *Exec) callFunction(st *State, fn *ssa.Function, args []Value, bind []V
 				ex.maxUnwind = fr.iters[h]
 			}
 			if fr.iters[h] > ex.Kunwind {
+				ex.restrictions++
 				v := &VC{Kind: "unwind", Site: fmt.Sprintf("%s loop at block %d exceeds unwinding bound %d", fn.String(), h.Index, ex.Kunwind), Result: "unknown", Harness: ex.harness}
 				ex.vcs = append(ex.vcs, v)
 				ex.undecided = append(ex.undecided, v)
@@ -484,9 +551,16 @@ func (ex *Exec) callFunction(st *State, fn *ssa.Function, args []Value, bind []V
 	}
 	if fr.exit == nil {
 		st.dead = true
+		ex.restrictions++
 		return nil, false
 	}
 	e := fr.exit
+	if ex.restrictions == r0 && len(e.pc) != len(entryPC) {
+		// every path through the callee returned and nothing restricted the
+		// inputs: the disjunction of all path conditions is the entry condition
+		e.pc = entryPC[:len(entryPC):len(entryPC)]
+		ex.rebuildFacts(e)
+	}
 	st.pc, st.facts, st.eqc, st.factsShare = e.pc, e.facts, e.eqc, true
 	e.factsShare = true
 	st.heap, st.heapShare = e.heap, true
@@ -507,6 +581,9 @@ func (ex *Exec) runBlock(fr *frame, s *State, b *ssa.BasicBlock) {
 			return
 		case *ssa.If:
 			c := ex.simp(s, ex.val(s, t.Cond).(*Term))
+			if fr.fi.loops[b] != nil {
+				fr.constHdr[b] = c.IsConst()
+			}
 			if c.IsTrue() {
 				ex.flow(fr, s, b, b.Succs[0])
 				return
@@ -514,6 +591,21 @@ func (ex *Exec) runBlock(fr *frame, s *State, b *ssa.BasicBlock) {
 			if c.IsFalse() {
 				ex.flow(fr, s, b, b.Succs[1])
 				return
+			}
+			if ex.feasBranches && !ex.inHarnessCode(fr.fn) {
+				// prune infeasible sides eagerly: keeps merged states free of
+				// garbage from paths no input can take
+				pc := ex.pcTerm(s)
+				if ex.solver.CheckQuick(ex.feasMs, pc, c) == "unsat" {
+					ex.nPruned++
+					ex.flow(fr, s, b, b.Succs[1])
+					return
+				}
+				if ex.solver.CheckQuick(ex.feasMs, pc, ex.tb.Not(c)) == "unsat" {
+					ex.nPruned++
+					ex.flow(fr, s, b, b.Succs[0])
+					return
+				}
 			}
 			s2 := s.clone()
 			if ex.assume(s, c) {
